@@ -92,7 +92,7 @@ def paramOk (e : ExtraDef) : PVal → Bool
   | .str raw =>
     (decide (ArgType.string ∈ e.types) || (e.typeIsStr && decide (ArgType.stringlist ∈ e.types)))
       && (match e.values with | some vs => decide (raw ∈ vs) | none => true)
-  | .num _ => decide (ArgType.number ∈ e.types) && e.values.isNone
+  | .num raw => decide (ArgType.number ∈ e.types) && (match e.values with | some vs => decide (raw ∈ vs) | none => true)
   | .list _ => decide (ArgType.stringlist ∈ e.types) && e.values.isNone
   | .tag _ => false
 
